@@ -72,8 +72,10 @@ def run_entry(args):
         from . import report
         known = report.load_known()
         fails = [o for o in fails if not any(report.is_known(known, pid, o) for pid in props.PROPERTIES)]
-        return {"id": entry["id"], "status": "fired" if fails else "silent",
-                "obligations": sorted({o.oid + ":" + o.instance for o in fails})[:4]}
+        undec = [o for o in obs if o.ok is None]
+        status = "fired" if fails else ("undecided" if undec else "silent")
+        return {"id": entry["id"], "status": status,
+                "obligations": sorted({o.oid + ":" + o.instance for o in (fails or undec)})[:4]}
     finally:
         shutil.rmtree(d, ignore_errors=True)
 
@@ -387,12 +389,13 @@ def run_for(prop, repo_root, jobs=None):
         if r["status"] == "skipped":
             out["skipped"] += 1
             continue
-        if e["kind"] == "break":
+        if e["kind"] in ("break", "undecided"):
+            # 'undecided': a breaking edit for which the rule's honest answer is "cannot decide" (exit 2, no VIOLATION line)
             out["breaking_total"] += 1
-            if r["status"] == "fired":
+            if r["status"] == ("fired" if e["kind"] == "break" else "undecided"):
                 out["breaking_fired"] += 1
             else:
-                out["problems"].append("%s (%s): breaking edit not reported (%s)" % (e["id"], e["rule"], r["status"]))
+                out["problems"].append("%s (%s): breaking edit not reported as expected (%s)" % (e["id"], e["rule"], r["status"]))
         else:
             out["benign_total"] += 1
             if r["status"] == "silent":
@@ -417,7 +420,7 @@ if __name__ == "__main__":
         results = list(ex.map(run_entry, [(e, root) for e in corpus]))
     bad = 0
     for e, r in zip(corpus, results):
-        want = "fired" if e["kind"] == "break" else "silent"
+        want = {"break": "fired", "undecided": "undecided"}.get(e["kind"], "silent")
         flag = "ok " if r["status"] == want else ("skip" if r["status"] == "skipped" else "BAD")
         if flag == "BAD":
             bad += 1
